@@ -281,3 +281,5 @@ func verifScheduleCheck(cpus int, stepEncoding int) {}
 
 func verifTraceAccesses(on bool) {}
 func verifRaceCheck()            {}
+
+func verifSetGOMAXPROCS(n int) {}
